@@ -13,7 +13,7 @@ from . import e2_formula as F
 from .core import AnchorError, Unsupported
 from .e2_eval import is_unknown, need
 from .sem import module_funcs, place
-from .c10_sem import (XSem, Facts, Degrees, ANY, truth, same, app, head, sym_of, const_of, walk, apps, peel, depends, conj, wrap,
+from .c10_sem import (XSem, Facts, Degrees, ANY, truth, same, app, head, sym_of, const_of, walk, apps, peel, depends, conj, wrap, devectorise,
                       module_consts, str_parts, single_atom, TRUE, FALSE, NONE)
 
 CYC = "pyyeti/cyclecount.py"
@@ -79,6 +79,36 @@ def _bound(ctx, S, what, node):
     names = sorted({u[0] for u in S.tr.unbound})
     ctx.check(not names, f"{what}: every name the evaluated code reads is bound before it is read", S.tr.unbound[0][1] if names else node,
               None if not names else {"unbound": names}, nontrivial=False)
+
+
+def _digitized(x):
+    """an index of the accumulation read as  np.digitize(...)[k] + off  wherever the offset is applied (to the whole vector, to the element,
+    or to both): (digitize application, off, [k], (the idx atom, x - atom)); (None, ...) when x is not of that form"""
+    none = (None, None, [], (None, None))
+    if x is None or is_unknown(x) or isinstance(x, (tuple, str)):
+        return none
+    cands = [v for _, _, v in apps(x, "idx") if apps(v, "call:np.digitize")]
+    outer = [v for v in cands if not any(v is not w and any(same(v, y) for y in walk(w) if y is not w) for w in cands)]
+    if len(outer) != 1:
+        return none
+    atom = outer[0]
+    try:
+        shift = const_of(need(x) - atom)
+    except Unsupported:
+        shift = None
+    if shift is None:
+        return none
+    b, k = peel(atom)
+    dgs = apps(b, "call:np.digitize")
+    if len(dgs) != 1:
+        return none
+    try:
+        inner = const_of(need(b) - dgs[0][2])
+    except Unsupported:
+        inner = None
+    if inner is None:
+        return none
+    return ("call:np.digitize", dgs[0][1]), shift + inner, k, (atom, shift)
 
 
 def r5_binify_guards(ctx):
@@ -207,16 +237,7 @@ def r5_binify_guards(ctx):
             _, ix = peel(F.fn("idx", F.sym(mat), cell[1]))
             got = []
             for pos, x in enumerate(ix):
-                b, k = peel(x)
-                dg = None
-                dgs = apps(b, "call:np.digitize") if not is_unknown(b) else []
-                off = None
-                if len(dgs) == 1:
-                    try:
-                        off = const_of(need(b) - dgs[0][2])
-                    except Unsupported:
-                        off = None
-                    dg = ("call:np.digitize", dgs[0][1]) if off is not None else None
+                dg, off, k, _ = _digitized(x)
                 if dg is None or len(k) != 1:
                     bad = f"index {pos} of the accumulation is not digitize(...)[k] - 1: {short(x)}"
                     shape = False
@@ -262,9 +283,10 @@ def r5_binify_guards(ctx):
                 und = False
                 for r_, rin in ((-1, False), (0, True), (3, True), (5, False), (7, False)):
                     for c_, cin in ((-1, False), (0, True), (2, True), (4, False), (9, False)):
-                        f = Facts()
-                        f.num_set(ix[0], r_)
-                        f.num_set(ix[1], c_)
+                        f = Facts(truths=[(Sb0.E(pb[4]), ens)])        # the regime the arm was evaluated in (a merged loop tests the flag per cycle)
+                        for x, val in ((ix[0], r_), (ix[1], c_)):
+                            _, _, _, (atom, shift) = _digitized(x)    # x = atom + shift with atom the indexed digitize result
+                            f.num_set(atom, val - shift)
                         f.num_set(Sb0.E(f"len({roles[ens]['mean']})"), 6)
                         f.num_set(Sb0.E(f"len({roles[ens]['amp']})"), 5)
                         t = truth(g, f)
@@ -392,7 +414,7 @@ def r5_binify_guards(ctx):
         ctx.check(ok, "sigcount never overrides check_bounds", sc, None if ok else {k: short(v, 80) for k, v in placed(cb[0], pf).items()})
     # labels
     if bad is None:
-        df = [c for c in S.calls("pd.DataFrame") if "index" in c[2] and "columns" in c[2]]
+        df = [c for c in S.calls("pd.DataFrame", "DataFrame", "pandas.DataFrame") if "index" in c[2] and "columns" in c[2]]
         ok = len(df) == 1
         det = None
         shape = ok
@@ -523,9 +545,10 @@ def r6_tolerance_strictness(ctx):
         ctx.error("find_unique: the first sample is unique; a later sample is unique exactly when it differs from its predecessor by more than the tolerance", lf,
                   "the mask is not a concatenation (True, <comparison>): " + short(fu))
     elif ok:
-        cm = _tol_cmps([u[1][1]], pl[1])
+        mask = devectorise(u[1][1])          # [d > t for d in diffs] is diffs > t
+        cm = _tol_cmps([mask], pl[1])
         ok = len(cm) == 1 and same(cm[0][1], Sfu.E(f"abs(np.diff({pl[0]}))"))
-        r = _strict(u[1][1], cm[0][1], cm[0][2]) if ok else None
+        r = _strict(mask, cm[0][1], cm[0][2]) if ok else None
         ok = ok and r is not None and r["above"] is True and r["on"] is False and r["below"] is False
     if u is not None and len(u[1]) == 2:
         ctx.check(ok, "find_unique: the first sample is unique; a later sample is unique exactly when it differs from its predecessor by more than the tolerance", lf,
@@ -584,7 +607,8 @@ def _findap_numpy(ctx, variant, fu, pl, consts, table, lf):
         if fl is not None and len(fl[1]) == 2:
             ini = fl[1][1]
         last = [c for c in cells if const_of(c[1]) == -1]
-        ok = ini is not None and truth(ini, None) is True and len(cells) == len(inner) + len(last) and len(inner) == 1 and len(last) == 1 and not inner[0][4]["guard"]
+        ini_t = truth(ini, None) if ini is not None else None
+        ok = ini_t is not None and len(cells) == len(inner) + len(last) and len(inner) == 1 and len(last) == 1 and not inner[0][4]["guard"]
         Sg = YU = None
         if ok:
             e = app(inner[0][2], "cmp:Eq")
@@ -617,6 +641,9 @@ def _findap_numpy(ctx, variant, fu, pl, consts, table, lf):
             shape_ok = False
             probs.append(f"all-unique={allu}: mask stores {[(short(c[1], 60), short(c[2], 160)) for c in cells]} init {short(ini)}")
             continue
+        if ini_t is False:
+            ret_ok = False          # the mask starts all False and nothing stores its first entry: the first sample is dropped
+            probs.append(f"all-unique={allu}: the mask of the retained samples is created all False, so its first entry (never stored) drops the first sample")
         want_yu = [S.E("Y[U]", Y=y, U=U)] if U is not None else []
         if allu:
             want_yu.append(y)           # nothing was removed: y[U] is y
@@ -639,11 +666,30 @@ def _findap_numpy(ctx, variant, fu, pl, consts, table, lf):
 
 # ============================================================================================================ fdepsd model
 def _serial_pred(v):
-    """`parallel == "yes"` (whatever the local is called): the serial arm is the one analysed here; serial == parallel is C09-R5"""
+    """`parallel == "yes"` / `parallel == "no"` (whatever the local is called): the serial arm is the one analysed here; serial == parallel
+    is C09-R5"""
     u = app(v, "cmp:Eq")
     if u is not None and any(sym_of(x) == "'yes'" for x in u[1] if not isinstance(x, str)):
         return False
+    if u is not None and any(sym_of(x) == "'no'" for x in u[1] if not isinstance(x, str)):
+        return True
     return None
+
+
+def _resp_pred(label):
+    """`resp == <literal>` whichever literal the source tests: true exactly for the regime's own label"""
+    def pred(v):
+        u = app(v, "cmp:Eq")
+        if u is None or any(isinstance(x, str) for x in u[1]):
+            return None
+        names = [sym_of(x) for x in u[1]]
+        if "resp" in names:
+            other = names[1 - names.index("resp")]
+            sp = str_parts(u[1][1 - names.index("resp")]) if other is not None else None
+            if sp is not None and len(sp) == 1 and isinstance(sp[0], str):
+                return sp[0] == label
+        return None
+    return pred
 
 
 def _fde(ctx, absacce, plain=True):
@@ -657,7 +703,7 @@ def _fde(ctx, absacce, plain=True):
     if plain:
         truths += [(E("winends == 'auto'"), False), (E("winends is None"), True), (E("hpfilter is None"), True), (E("detrend"), False),
                    (E("rolloff == 'prefilter'"), False)]
-    preds = [_serial_pred]
+    preds = [_serial_pred, _resp_pred("absacce" if absacce else "pvelo")]
     if plain:
         def noresample(v):
             u = app(v, "cmp:Lt")
@@ -670,7 +716,7 @@ def _fde(ctx, absacce, plain=True):
         f.num_set(E(text), 1)
     S = XSem(ctx, fn, facts=f, consts=consts, inline={k: v for k, v in table.items() if k not in ("fdepsd", "_dofde", "_mk_par_globals")})
     out = {}
-    ns = S.calls("SimpleNamespace")
+    ns = S.calls("SimpleNamespace", "types.SimpleNamespace")
     if len(ns) != 1 or len(S.returns()) != 1 or S.tr.raises:
         raise AnchorError("fdepsd: one return of SimpleNamespace(...)")
     for k, v in ns[0][2].items():
@@ -678,12 +724,16 @@ def _fde(ctx, absacce, plain=True):
     return S, out, fn
 
 
+DF_NAMES = ("call:pd.DataFrame", "call:DataFrame", "call:pandas.DataFrame")
+SERIES_NAMES = ("call:pd.Series", "call:Series", "call:pandas.Series")
+
+
 def _strip(S, v):
     """the array behind pd.DataFrame(x, ...) / pd.Series(x, ...) / re-bound names"""
     for _ in range(6):
         v = S.deref(v)
         u = app(v)
-        if u is not None and u[0] in ("call:pd.DataFrame", "call:pd.Series"):
+        if u is not None and u[0] in DF_NAMES + SERIES_NAMES:
             pos, kw = call_args(u)
             v = pos[0] if pos else kw.get("data")
             continue
@@ -694,8 +744,8 @@ def _strip(S, v):
 def _frame(S, v):
     """pd.DataFrame(data, columns=[...]) -> {label text: column value} (data: dict, tuple of columns, or an opaque value)"""
     v = S.deref(v)
-    u = app(v, "call:pd.DataFrame")
-    if u is None:
+    u = app(v)
+    if u is None or u[0] not in DF_NAMES:
         return None
     pos, kw = call_args(u)
     data = pos[0] if pos else kw.get("data")
@@ -842,6 +892,9 @@ def _columns(v, cols):
         if len(ix) != 1:
             return None
         sl = app(ix[0], "slice")
+        if sl is None and const_of(ix[0]) is not None and const_of(ix[0]).denominator == 1 and -n <= const_of(ix[0]) < n:
+            k0 = int(const_of(ix[0])) % n
+            sl = ("slice", [F.const(k0), F.const(k0 + 1), NONE])          # X[:, k] as the one-column block X[:, k:k+1]
         if sl is None:
             return None
         bounds = []
@@ -875,7 +928,28 @@ def r3_telescoping(ctx):
     vec = []
     ok = hc is not None and CT is not None
     mism = None
-    if ok:
+    if hc is None and CT is not None and sym_of(Z) is not None and S.cells(sym_of(Z)):
+        # the array is allocated and its column blocks are stored one by one: BinCount[:, :-1] = ...; BinCount[:, -1] = ...
+        slots = [None] * len(C)
+        ok = True
+        for c in S.cells(sym_of(Z)):
+            try:
+                tgt = _columns(F.fn("idx", F.sym("<pos>"), c[1]), [F.const(i) for i in range(len(C))]) if not is_unknown(c[1]) else None
+                r = _columns(c[2], C)
+            except _Mismatch as e:
+                mism = str(e)
+                break
+            if tgt is None or r is None or sym_of(r[1]) != CT or c[4]["guard"] or c[4]["loops"]:
+                ok = False
+                break
+            if len(tgt[0]) != len(r[0]):
+                mism = f"{len(r[0])} columns are stored into {len(tgt[0])}: {short(c[1], 80)} = {short(c[2], 120)}"
+                break
+            for t_, v_ in zip(tgt[0], r[0]):
+                slots[int(const_of(t_))] = v_
+        if ok and not mism:
+            vec = [x for x in slots if x is not None]
+    elif ok:
         for part in hc[1]:
             try:
                 r = _columns(part, C)
@@ -956,7 +1030,7 @@ def _levels_shape(S, LV):
             a = place(al[1], al[2], ["shape", "dtype"] if al[0] != "np.tile" else ["A", "reps"])
             shp = a.get("reps" if al[0] == "np.tile" else "shape")
             if isinstance(shp, tuple) and len(shp) == 2:
-                rows = any(same(shp[0], w) for w in (S.E("freq.size"), S.E("len(freq)")))
+                rows = any(same(shp[0], w) for w in (S.E("freq.size"), S.E("len(freq)"), S.E("len(2 * np.pi * freq)"), S.E("(2 * np.pi * freq).size")))
                 if al[0] == "np.tile":
                     return rows and const_of(shp[1]) == 1
                 return rows and same(shp[1], S.E("nbins"))
